@@ -1540,12 +1540,26 @@ class Interp:
         if isinstance(e, ast.Name):
             if c is not None and e.id in c.params:
                 return c.params[e.id]
+            if c is None and e.id in [a.arg for a in m.node.args.args]:
+                # a parameter of a helper without contract: the type a contract of the same class gives a parameter of that name
+                pts = {cc.params[e.id] for k, cc in self.reg.contracts.items()
+                       if cc.params and e.id in cc.params and k.split(":")[-1].split(".")[0] == cd.name}
+                return next(iter(pts)) if len(pts) == 1 else None
             got = set()
             for node in ast.walk(m.node):
                 if isinstance(node, ast.Assign) and len(node.targets) == 1 and isinstance(node.targets[0], ast.Name) \
                         and node.targets[0].id == e.id:
                     # a read of the field itself (e.g. x = self.<attr>.get(k)) says nothing new
                     if any(isinstance(n, ast.Attribute) and n.attr == attr for n in ast.walk(node.value)):
+                        continue
+                    ek = self.empty_container_kind(node.value)
+                    if ek in ("set", "seq"):
+                        # an accumulator: its element type is what the method adds to it
+                        ets = {self.guess_type(n2.args[0], m, cd, attr, depth + 1) for n2 in ast.walk(m.node)
+                               if isinstance(n2, ast.Call) and isinstance(n2.func, ast.Attribute)
+                               and isinstance(n2.func.value, ast.Name) and n2.func.value.id == e.id
+                               and n2.func.attr in ("add", "append", "appendleft") and len(n2.args) == 1}
+                        got.add(f"{ek}[{next(iter(ets))}]" if len(ets) == 1 and None not in ets else None)
                         continue
                     got.add(self.guess_type(node.value, m, cd, attr, depth + 1))
             return next(iter(got)) if len(got) == 1 else None
@@ -1569,11 +1583,21 @@ class Interp:
                     cc = self.reg.contracts.get(f.fdef.key)
                     if cc is not None and cc.returns:
                         return cc.returns
+            if isinstance(e.func, ast.Name) and e.func.id in ("set", "frozenset", "list", "sorted") and len(e.args) == 1:
+                inner = self.guess_type(e.args[0], m, cd, attr, depth + 1)
+                if inner and (inner.startswith("set[") or inner.startswith("seq[")):
+                    return ("set" if e.func.id in ("set", "frozenset") else "seq") + inner[3:]
             if isinstance(e.func, ast.Attribute) and isinstance(e.func.value, ast.Name) and e.func.value.id == "self":
                 fm = self.find_method(cd.name, e.func.attr)
                 cc = self.reg.contracts.get(fm.key) if fm is not None else None
                 if cc is not None and cc.returns:
                     return cc.returns
+                if fm is not None and cc is None:
+                    # a helper without contract: what its return statements spell out
+                    rts = {self.guess_type(n2.value, fm, cd, attr, depth + 1) for n2 in ast.walk(fm.node)
+                           if isinstance(n2, ast.Return) and n2.value is not None}
+                    if len(rts) == 1 and None not in rts:
+                        return next(iter(rts))
         return None
 
     def base_classdef(self, cd):
